@@ -68,11 +68,12 @@ theorem C01_scalar_strings (env : Env) :
     (∀ r : String, Spec.resolve env (.num r) = some (.str r)) := by
   refine ⟨by simp [Spec.resolve], by simp [Spec.resolve], fun i => by simp [Spec.resolve], fun r => by simp [Spec.resolve]⟩
 
-/-- values reached through a reference are rendered the same way -/
-theorem C01_ref_renders_scalars :
-    renderScalars (.bool true) = .str "true" ∧ renderScalars (.bool false) = .str "false" ∧
-    (∀ i : Int, renderScalars (.int i) = .str (String.ofList (intToChars i))) ∧
-    (∀ s : String, renderScalars (.str s) = .str s) := by
+/-- values reached through a reference are rendered the same way, and text goes through the same string clause as
+    text written in the template -/
+theorem C01_ref_renders_scalars (params : List (String × J)) :
+    renderScalars params (.bool true) = .str "true" ∧ renderScalars params (.bool false) = .str "false" ∧
+    (∀ i : Int, renderScalars params (.int i) = .str (String.ofList (intToChars i))) ∧
+    (∀ s : String, renderScalars params (.str s) = resolveStr params s) := by
   refine ⟨rfl, rfl, fun _ => rfl, fun _ => rfl⟩
 
 /-! ### Ref / Fn::ImportValue -/
@@ -83,15 +84,15 @@ theorem applyFn_ref (env : Env) (fn : String) (h : resolverOf fn = some "resolve
       let r ← whole
       let name ← strOf r
       match J.lookup name env.params with
-      | some v => pure (renderScalars v)
+      | some v => pure (renderScalars env.params v)
       | none => pure (undefinedParam name)) := by
   unfold applyFn; simp only [h]; rfl
 
 /-- C01_ref_bound: a reference whose name has a value resolves to that value (scalars rendered) -/
 theorem C01_ref_bound (env : Env) (body : J) (name : String) (v : J)
     (hb : Spec.resolve env body = some (.str name)) (hv : J.lookup name env.params = some v) :
-    Spec.resolve env (.obj [("Ref", body)]) = some (renderScalars v) ∧
-    Spec.resolve env (.obj [("Fn::ImportValue", body)]) = some (renderScalars v) := by
+    Spec.resolve env (.obj [("Ref", body)]) = some (renderScalars env.params v) ∧
+    Spec.resolve env (.obj [("Fn::ImportValue", body)]) = some (renderScalars env.params v) := by
   constructor
   · rw [resolve_fn _ _ _ (by decide), applyFn_ref _ _ ro_ref]; simp [hb, strOf, hv]
   · rw [resolve_fn _ _ _ (by decide), applyFn_ref _ _ ro_import]; simp [hb, strOf, hv]
